@@ -52,6 +52,23 @@ def _region_writes(ctx, fi, region_node):
     return writes
 
 
+def _covered(ctx, tm, fq, lineno, depth=3):
+    """Is the statement at ``lineno`` of ``fq`` executed inside a transaction region: lexically, or because every
+    resolved call site of the (synchronous helper) function is?"""
+    if tm._inside(fq, lineno):
+        return True, "in region"
+    if depth == 0:
+        return False, "helper chain too deep"
+    sites = [cs for cs in ctx.cg.call_sites_of(fq, include_by_name=False)]
+    if not sites:
+        return False, "not in a region and no resolved caller"
+    for cs in sites:
+        ok, how = _covered(ctx, tm, cs.caller.fq, cs.node.lineno, depth - 1)
+        if not ok:
+            return False, f"caller {cs.caller.fq}:{cs.node.lineno} is not in a region"
+    return True, f"helper: all {len(sites)} call site(s) are in a region"
+
+
 def rule_one_mutating_region(ctx):
     """R-C15-1 / R-C15-2."""
     cls = ctx.prog.cls("director.DirectorHandler")
@@ -86,8 +103,8 @@ def rule_one_mutating_region(ctx):
             caller = cs.caller.fq
             if caller.startswith(("workflow.", "step.", "trellis.")):
                 continue
-            ok = tm._inside(caller, cs.node.lineno)
-            ctx.check(ok, caller, f"{fq.split('.')[-1]}(...) inside `async with db`", "a graph mutation is called outside a transaction region", "in region", where=ctx.where_of(cs.caller, cs.node))
+            ok, how = _covered(ctx, tm, caller, cs.node.lineno)
+            ctx.check(ok, caller, f"{fq.split('.')[-1]}(...) inside `async with db`", f"a graph mutation is called outside a transaction region ({how})", how, where=ctx.where_of(cs.caller, cs.node))
 
 
 def rule_no_swallowed_failure(ctx):
@@ -217,4 +234,6 @@ MUTANTS = [
     Mutant("mutation-outside-region", "director.py", in_function("DirectorHandler.register_glob", lambda s: s.replace("        async with self.db:\n            creator = self.scheduler.get_job_step(job_i)\n            self.workflow.register_nglob(creator, ng)\n", "        creator = self.scheduler.get_job_step(job_i)\n        self.workflow.register_nglob(creator, ng)\n") if "self.workflow.register_nglob(creator, ng)" in s else None), ("R-C15-1",)),
 ]
 
-VARIANTS = []
+VARIANTS = [
+    Variant("register-through-helper", "director.py", lambda t: t.replace("    @allow_rpc\n    async def declare_static(", "    def _register_matches(self, creator, ng):\n        self.workflow.register_nglob(creator, ng)\n\n    @allow_rpc\n    async def declare_static(", 1).replace("            creator = self.scheduler.get_job_step(job_i)\n            self.workflow.register_nglob(creator, ng)\n", "            creator = self.scheduler.get_job_step(job_i)\n            self._register_matches(creator, ng)\n", 1) if "            creator = self.scheduler.get_job_step(job_i)\n            self.workflow.register_nglob(creator, ng)\n" in t else None),
+]
